@@ -153,10 +153,22 @@ Definition call_bin_dunder (d : pystr) (self other : term) : option term :=
   | _ => None
   end.
 
+(* self.<method>(other) for the plain methods that build a node: _eq, _neq *)
+Definition call_method (nm : pystr) (self other : term) : option term :=
+  if is_ref self then
+    match alookup nm (map (fun x => (fst (fst x), (snd (fst x), snd x))) method_bin) with
+    | Some (cls, OSelfOther) => Some (TBin cls self other)
+    | _ => None
+    end
+  else None.
+
+Definition is_method (nm : pystr) : bool := mem_str nm (map (fun x => fst (fst x)) method_bin).
+
 (* lhs <op> rhs *)
 Definition build_bin (o : pystr) (l r : term) : option term :=
   if is_eq_op o then
-    (* BaseRef.__eq__ (and the default __ne__) return a bool: no expression *)
+    (* the operators == and != : BaseRef.__eq__ (and the default __ne__) return a
+       bool, no expression; the deferred comparisons are built by _eq / _neq *)
     if is_ref l || is_ref r then
       let e := toks_eqb (show_tokens l) (show_tokens r) in
       Some (TConst (LBool (if pystr_eqb o (s2p "==") then e else negb e)))
@@ -254,10 +266,14 @@ Section Parse.
   Definition binary_step (ts : list token) : option (term * list token) :=
     match pp_operand rec ts with
     | Some (l, KOp o :: r) =>
-        match pp_operand rec r with
-        | Some (rr, r2) => close_paren (build_bin o l rr) r2
-        | None => None
-        end
+        if is_op o ")" then
+          (* a parenthesised operand is the operand itself *)
+          if is_ref l then pp_trailers rec l r else Some (l, r)
+        else
+          match pp_operand rec r with
+          | Some (rr, r2) => close_paren (build_bin o l rr) r2
+          | None => None
+          end
     | _ => None
     end.
 
@@ -339,7 +355,22 @@ Section Parse.
         if is_op o "." then
           match r with
           | KName nm :: r' =>
-              if private_name nm then None
+              if is_method nm then
+                (* a method found by normal lookup: only its call with one argument is modelled *)
+                match r' with
+                | KOp c :: r2 =>
+                    if is_op c "(" then
+                      match pp_operand rec r2 with
+                      | Some (x, KOp c2 :: r3) =>
+                          if is_op c2 ")" then
+                            match call_method nm b x with Some t => pp_trailers rec t r3 | None => None end
+                          else None
+                      | _ => None
+                      end
+                    else None
+                | _ => None
+                end
+              else if private_name nm then None
               else match mk_access b (s2p "__getattr__") (TConst (LStr nm)) with
                    | Some t => pp_trailers rec t r'
                    | None => None
@@ -485,12 +516,12 @@ Section Wf.
     | TConst _ => false
     | TTop l _ => negb (mem_str l reserved_labels) && match ns l with Some b => is_ref b | None => false end
     | TItem o k => wf o && match k with TConst (LStr _) => true | _ => operand k end
-    | TAttr o k => wf o && match k with TConst (LStr n) => negb (private_name n) | _ => false end
+    | TAttr o k => wf o && match k with TConst (LStr n) => negb (private_name n) && negb (is_method n) | _ => false end
     | TBin c l r =>
         existsb (N.eqb c) bin_classes && operand l && operand r &&
         match op_str c with
-        | Some s => negb (is_eq_op s) &&
-                    (is_ref l || (is_ref r && mem_str s reflectable_ops))
+        | Some s => if is_eq_op s then is_ref l        (* built by l._eq(r) / l._neq(r) *)
+                    else is_ref l || (is_ref r && mem_str s reflectable_ops)
         | None => false
         end
     | TUn c a => existsb (N.eqb c) un_classes && wf a
